@@ -45,6 +45,8 @@ HISTORIES = {
     'configured+configure': [['setup', 'B', '-Dx=old', '-Dsub:warning_level=3', '-Dsub:y=yold'], ['configure', 'B', '-Dc=b']],
     # values that live in coredata.dat only (a machine file is read when the directory is first configured)
     'native-file': [['setup', 'B', '--native-file', 'NF']],
+    # the machine file arrives through a pipe: meson keeps a private copy inside the build directory and records that
+    'native-pipe': [['setup', 'B', '--native-file', 'PIPE']],
     'failed-reconfigure': [['setup', 'B', '-Dx=old', '-Dsub:warning_level=3', '-Dsub:y=yold'], ['setup', '--reconfigure', 'B', '-Dboom=true'], ['configure', 'B', '-Dboom=false']],
 }
 # commands under test: name -> (argv, {option: set of allowed values after recovery, given the value before})
@@ -52,11 +54,32 @@ COMMANDS = {
     'setup-fresh': (['setup', 'B', '-Dx=new', '-Dsub:warning_level=3'], {'x': 'new', 'sub_wl': '3'}),
     'reconfigure-D': (['setup', '--reconfigure', 'B', '-Dx=new'], {'x': 'new'}),
     'wipe': (['setup', '--wipe', 'B'], {}),
+    'wipe-pipe': (['setup', '--wipe', 'B', '--native-file', 'PIPE'], {}),
     'configure-D': (['configure', 'B', '-Dx=new', '-Dc=c'], {'x': 'new', 'c': 'c'}),
     'configure-U': (['configure', 'B', '-Usub:warning_level'], {'sub_wl': '1'}),
     'configure-D-sub': (['configure', 'B', '-Dsub:y=ynew'], {'sub_y': 'ynew'}),
 }
 PAIRS = [('fresh', 'setup-fresh')] + [(h, c) for h in ('configured', 'configured+configure', 'failed-reconfigure', 'native-file') for c in ('reconfigure-D', 'wipe', 'configure-D', 'configure-U', 'configure-D-sub')]
+PAIRS += [('native-pipe', c) for c in ('wipe-pipe', 'wipe', 'reconfigure-D', 'configure-D')]
+
+
+def feed_pipe(argv, root):
+    """'PIPE' in argv -> a fresh FIFO fed with the machine file by a helper process (to be killed by the caller afterwards)"""
+    if 'PIPE' not in argv:
+        return argv, None
+    import subprocess
+    fifo = os.path.join(root, 'nf.fifo')
+    if os.path.lexists(fifo):
+        os.unlink(fifo)
+    os.mkfifo(fifo)
+    feeder = subprocess.Popen(['sh', '-c', 'exec cat "$0" > "$1"', os.path.join(root, 'src', 'nf.ini'), fifo], stdin=subprocess.DEVNULL, stdout=subprocess.DEVNULL, stderr=subprocess.DEVNULL)
+    return [fifo if x == 'PIPE' else x for x in argv], feeder
+
+
+def stop_feeder(feeder):
+    if feeder is not None:
+        feeder.kill()
+        feeder.wait()
 
 _server = None
 _states = {}
@@ -95,7 +118,9 @@ def prepare(root, proj, backend, history, bname='b'):
         a = [bdir if x == 'B' else os.path.join(src, 'nf.ini') if x == 'NF' else x for x in argv]
         if a[0] == 'setup' and '--reconfigure' not in a:
             a = a[:2] + [src] + a[2:] + ['--backend=' + backend]
+        a, feeder = feed_pipe(a, root)
         r = mp.run_meson(a, src, env=env)
+        stop_feeder(feeder)
         vals.update(observe(r.out))
     snap = fsutil.snapshot(bdir)
     if snap is not None:
@@ -135,7 +160,9 @@ def trial(job):
         mp.write_tree(src, proj)
     fsutil.restore(bdir, snap)
     env = mp.base_env(home=os.path.join(root, 'home'))
-    r = server().run(argv_for(cmdname, root, backend, bname), src, env=env, pre=('verif.fsfault', 'arm_sorted', (bdir, k, '', tear)))
+    cargv, feeder = feed_pipe(argv_for(cmdname, root, backend, bname), root)
+    r = server().run(cargv, src, env=env, pre=('verif.fsfault', 'arm_sorted', (bdir, k, '', tear)))
+    stop_feeder(feeder)
     killed = r.rc == 137
     # recovery as the property prescribes
     if os.path.exists(os.path.join(bdir, 'meson-private', 'coredata.dat')):
@@ -216,14 +243,19 @@ def count_points(job):
     log = os.path.join(root, 'mut.log')
     env = mp.base_env(home=os.path.join(root, 'home'))
     src = os.path.join(root, 'src')
-    r = server().run(argv_for(cmdname, root, backend, bname), src, env=env, pre=('verif.fsfault', 'arm_sorted', (bdir, 0, log, 0)))
+    cargv, feeder = feed_pipe(argv_for(cmdname, root, backend, bname), root)
+    r = server().run(cargv, src, env=env, pre=('verif.fsfault', 'arm_sorted', (bdir, 0, log, 0)))
+    stop_feeder(feeder)
     points = fsfault.read_log(log)
     # a second counting run must list the same mutations (determinism of the enumeration)
     fsutil.restore(bdir, snap)
-    r2 = server().run(argv_for(cmdname, root, backend, bname), src, env=env, pre=('verif.fsfault', 'arm_sorted', (bdir, 0, log, 0)))
+    cargv, feeder = feed_pipe(argv_for(cmdname, root, backend, bname), root)
+    r2 = server().run(cargv, src, env=env, pre=('verif.fsfault', 'arm_sorted', (bdir, 0, log, 0)))
+    stop_feeder(feeder)
     points2 = fsfault.read_log(log)
     # (names made by tempfile.mkstemp/mkdtemp - compiler checks - differ between any two runs)
     def norm(path):
+        path = re.sub(r'/[0-9a-f]{8}-[0-9a-f]{4}-[0-9a-f]{4}-[0-9a-f]{4}-[0-9a-f]{12}(?=\.)', '/<uuid>', path)    # private copy of a piped machine file
         return re.sub(r'/tmp[A-Za-z0-9_]{8}(?=/|$|\.)', '/tmp*', path)
     same = [(p[1], norm(p[3])) for p in points] == [(p[1], norm(p[3])) for p in points2]
     if not same:
